@@ -246,6 +246,7 @@ class World:
                 self.ur_fac.append(ur['fac'])
         self.config = Config()
         self.config.set('path', 'output-root', outroot)
+        self.shared_sub, self.shared_deps, self.shared_soft = {}, [], []
         self.bulk = []            # tasks of the filler requests (kept alive: identities stay unique)
         self.last_bulk = []
         self.slots = []           # task object | None (operation raised or was skipped)
@@ -274,7 +275,10 @@ class World:
         # the SPELLING of a request (not part of its identity): order of the
         # keywords (= order of mk['kwargs']), extra_args as a tuple, keywords
         # before or after the other arguments, equal but not identical strings
-        tup, kw_last, fresh_str = mk.get('spell', [False, False, False])
+        # ... and the caller's mutable arguments (subprocess_args dict, deps and
+        # soft_deps lists) being ONE object per history, changed in place between
+        # the requests (the request is what the arguments hold at call time)
+        tup, kw_last, fresh_str, shared = (list(mk.get('spell', [])) + [False] * 4)[:4]
 
         def val(v):
             return ''.join(['v', str(v)]) if fresh_str else f'v{v}'
@@ -286,10 +290,20 @@ class World:
         if mk['extra'] is not None:
             extra = [val(v) for v in mk['extra']]
             out['extra_args'] = tuple(extra) if tup else extra
-        if mk['sub']:
+        if shared:
+            self.shared_sub.clear()
+            self.shared_sub.update(sub_value(k, v) for k, v in mk['sub'])
+            self.shared_deps[:] = deps
+            self.shared_soft[:] = soft
+            out['subprocess_args'] = self.shared_sub
+            out['deps'] = self.shared_deps
+            out['soft_deps'] = self.shared_soft
+        elif mk['sub']:
             out['subprocess_args'] = dict(sub_value(k, v) for k, v in mk['sub'])
         if kw_last:
             out.update((MKKEYS[k], val(v)) for k, v in mk['kwargs'])
+        if shared:
+            return out
         if mk['deps'] or mk.get('deps_given'):
             out['deps'] = deps
         if mk['soft']:
@@ -1173,6 +1187,13 @@ def corpus():
               ['userun', 0, mk(extra=[1], kwargs=[[3, 1], [4, 2]]), None, 0],
               ['userun', 0, dict(mk(extra=[1], kwargs=[[4, 2], [3, 1]]), spell=[True, False, True]), None, 0]],
              useruns=({'fac': 0, 'posts': [2]},)),
+        # ONE subprocess_args dictionary / deps list of the caller, changed in place between the requests
+        case([['make', 0, dict(mk(name='t', extra=[1], sub=[[0, 1]], deps=[a]), spell=[False, False, False, True])],
+              ['make', 0, dict(mk(name='t', extra=[1], sub=[[0, 2]], deps=[a]), spell=[False, False, False, True])],
+              ['make', 0, dict(mk(name='t', extra=[1], sub=[[0, 1]], deps=[a]), spell=[False, False, False, True])],
+              ['make', 0, dict(mk(name='u', extra=[1], deps=[a]), spell=[False, False, False, True])],
+              ['make', 0, dict(mk(name='u', extra=[1], deps=[b]), spell=[False, False, False, True])],
+              ['make', 0, dict(mk(name='u', extra=[1], deps=[a]), spell=[False, False, False, True])]]),
         # a user name hides the arguments
         case([['make', 0, mk(name='t', extra=[1])], ['make', 0, mk(name='t', extra=[2])],
               ['make', 0, mk(name='t', extra=[1])], ['make', 0, mk(name='t', kwargs=[[0, 3]], extra=[1])]]),
@@ -1278,7 +1299,7 @@ def gen_case(rng, long_n=None):
                 'kwargs': rng.choice([[], [], [], [[0, 2]], [[0, 3]], [[1, 2]], [[2, 1]], [[0, 2], [1, 2]],
                                       [[3, 1], [4, 2]], [[4, 2], [3, 1]], [[2, 1], [3, 1]],
                                       [[3, 1], [0, 2]], [[4, 1], [2, 0], [3, 2]]]),
-                'spell': [rng.random() < 0.3, rng.random() < 0.3, rng.random() < 0.3],
+                'spell': [rng.random() < 0.3, rng.random() < 0.3, rng.random() < 0.3, rng.random() < 0.4],
                 'sub': rng.choice([[], [], [], [[0, 1]], [[0, 2]], [[1, 18]], [[1, 18], [0, 1]]]),
                 'deps': [ref() for _ in range(rng.choice([0, 0, 0, 1, 1, 2]))],
                 'soft': [ref() for _ in range(rng.choice([0, 0, 0, 0, 1]))]}
@@ -1384,7 +1405,7 @@ def gen_case(rng, long_n=None):
             rng.shuffle(m['soft'])
             old = m.get('spell', [False, False, False])
             m['spell'] = [not old[0] if rng.random() < 0.6 else old[0], rng.random() < 0.5,
-                          rng.random() < 0.5]
+                          rng.random() < 0.5, rng.random() < 0.5]
         elif kind in ('make', 'userun'):
             m = op[2]
             what = rng.randrange(8)
